@@ -164,7 +164,8 @@ struct AllocJobs<'a> {
 impl<'a> Visitor for AllocJobs<'a> {
     fn visit<S: Spec>(&mut self, e: Entry<S>) {
         let coded = e.coded != crate::spec::Coded::No;
-        if e.vector_backed && !coded && e.has_heap {
+        // zero-sized elements never allocate: nothing to check, and announcing more than usize::MAX of them overflows
+        if e.vector_backed && !coded && e.has_heap && !e.zst {
             let (prefix, batch) = if self.thorough { (2, 4) } else { (2, 2) };
             for owned in [false, true] {
                 let e2 = e.clone();
@@ -190,7 +191,7 @@ struct StackAllocJobs<'a> {
 
 impl<'a> crate::catalogue::StackVisitor for StackAllocJobs<'a> {
     fn visit<S: Spec, C: flatcontainer::impls::index::IndexContainer<crate::spec::Idx<S>> + crate::spec::IdxModel<crate::spec::Idx<S>> + 'static>(&mut self, e: Entry<S>, caps: StackCaps<S, C>) {
-        if caps.cname != "Vec<Index>" || caps.copy_owned.is_none() || e.coded != crate::spec::Coded::No || !e.has_heap {
+        if caps.cname != "Vec<Index>" || caps.copy_owned.is_none() || e.coded != crate::spec::Coded::No || !e.has_heap || e.zst {
             return;
         }
         let batch = if self.thorough { 3 } else { 2 };
@@ -314,6 +315,8 @@ pub fn jobs(prop: &str, tier: &str) -> Vec<Job> {
                 for p in [small_profiles(3).into_iter().find(|p| p.name == "counts[1, 2, 3]").unwrap(), fib_profile(6), fib_profile(10)] {
                     out.push(job(move || Box::new(HuffMachine::<u8>::new(p.clone(), 1)), Mode::Bfs(BfsCfg::new(if thorough { 3 } else { 2 })), false));
                 }
+                // 27-bit codes appended into a shared partial byte
+                out.push(job(|| Box::new(HuffMachine::<u8>::new(fib_profile(28), 0)), Mode::Bfs(BfsCfg::new(if thorough { 2 } else { 1 })), false));
                 use crate::m_dict::{Alphabet, DictCfg, DictMachine};
                 for seed in [0u8, 1] {
                     let cfg = DictCfg { seed, alphabet: Alphabet::Relative, max_merges: 1 };
@@ -332,7 +335,7 @@ pub fn jobs(prop: &str, tier: &str) -> Vec<Job> {
             // clone_from between two coded Huffman containers with different code tables
             {
                 use crate::m_huff::*;
-                for p in [small_profiles(2).into_iter().find(|p| p.name == "counts[2, 1]").unwrap(), fib_profile(6)] {
+                for p in [small_profiles(2).into_iter().find(|p| p.name == "counts[2, 1]").unwrap(), fib_profile(6), fib_profile(20)] {
                     out.push(job(move || Box::new(HuffMachine::<u8>::new(p.clone(), 0)), Mode::Bfs(BfsCfg::new(if thorough { 3 } else { 2 })), false));
                 }
             }
@@ -512,7 +515,7 @@ pub fn jobs(prop: &str, tier: &str) -> Vec<Job> {
             c.merge = true;
             c.o_dense = true;
             c.o_model = true;
-            c.n_forms = 3;
+            c.n_forms = usize::MAX;
             let devs: &[(usize, usize, u8)] = if thorough { &[(64, 2, 0)] } else { &[(32, 1, 0)] };
             life(&mut out, c, if thorough { 7 } else { 5 }, devs, &|i| i.dense, &|_, _| {});
         }
